@@ -143,8 +143,10 @@ PROPS = {
                       {"name": "h_poly", "quick": 20000, "thorough": 200000},
                       {"name": "h_fsi", "quick": 1500, "thorough": 20000},
                       {"name": "h_container", "quick": 4000, "thorough": 40000},
-                      {"name": "h_div", "quick": 4000, "thorough": 40000}],
-        "select": lambda t: t[1] in ("refs", "div") or _dest_of(t) in ("p", "a", "b", "c", "s"),
+                      {"name": "h_div", "quick": 4000, "thorough": 40000},
+                      {"name": "h_gcd", "quick": 2500, "thorough": 30000},
+                      {"name": "h_res", "quick": 1200, "thorough": 15000}],
+        "select": lambda t: t[1] in ("refs", "div", "gcd", "res") or _dest_of(t) in ("p", "a", "b", "c", "s"),
         "nontrivial": lambda t, r: True,
         "viol_filter": _c19_viol_filter,
         "rule": "(1) reference-count histories (create/attach/detach/destroy of rings and contexts, external polynomials, vectors, "
